@@ -638,7 +638,7 @@ func TestProp(t *testing.T) {
 }
 
 func TestReplay(t *testing.T) {
-	core.Replay(t, mutated, random, tlCheck, helpers, lists, tlRaw, tlbRaw, answers, answersGrid, liteapiCheck, sweep, wide, sliceCheck, stackMapCheck)
+	core.Replay(t, mutated, random, tlCheck, helpers, lists, tlRaw, tlbRaw, answers, answersGrid, liteapiCheck, sweep, wide, sliceCheck, stackMapCheck, coldConcurrent)
 }
 
 var _ = errors.New
